@@ -561,8 +561,12 @@ func (a *AggregatePlan) convertToBytes(val any) ([]byte, error) {
 		return []byte(value), nil
 	case int, int8, int16, int32, int64, uint, uint8, uint16, uint32, uint64:
 		return []byte(fmt.Sprintf("%d", value)), nil
-	case float32, float64:
-		return []byte(fmt.Sprintf("%f", value)), nil
+	case float32:
+		// The shortest text that reads back as the same number: a fixed
+		// number of decimals would put different values into one group
+		return strconv.AppendFloat(nil, float64(value), 'f', -1, 32), nil
+	case float64:
+		return strconv.AppendFloat(nil, value, 'f', -1, 64), nil
 	default:
 		if val == nil {
 			return nil, nil
